@@ -69,11 +69,18 @@ def gen_route(r: random.Random, afi: int, kind: str, rich: float = 0.6, with_pat
         asns = [r.choice(gw.ASN2 + gw.ASN4) for _ in range(n)]
         segs = [(2, asns)] if asns else []
         txt = '[ ' + ' '.join(str(x) for x in asns) + ' ]'
-        if asns and False:  # AS_SET text syntax is not documented: left out
+        if asns and r.random() < 0.3:
+            # several segments: '[ sequence ] ( set )' as configuration/static/parser.py as_path reads it
             sset = [r.choice(gw.ASN2 + gw.ASN4) for _ in range(r.choice([1, 3]))]
-            txt = '[ ' + ' '.join(str(x) for x in asns) + ' ( ' + ' '.join(str(x) for x in sset) + ' ) ]'
+            if r.random() < 0.5:
+                sset = [x for x in sset if x <= 65535] or [64512]  # only the sequence holds the 4-byte AS numbers
+            txt += ' ( ' + ' '.join(str(x) for x in sset) + ' )'
             segs.append((1, sset))
             a['as_path_has_set'] = True
+            if r.random() < 0.3:
+                tail = [r.choice(gw.ASN2) for _ in range(r.choice([1, 2]))]
+                txt += ' [ ' + ' '.join(str(x) for x in tail) + ' ]'
+                segs.append((2, tail))
         opts.append(f'as-path {txt}')
         a['as_path'] = segs
     if r.random() < rich:
